@@ -953,6 +953,11 @@ void intruder_hook(bool) {
 
 static void run() {
   vfs::reset();
+  // (per-run state of the harness: a run that ends in a violation leaves through an exception)
+  g_load_by_name = g_load_from_pipe = false;
+  g_intr_at = SIZE_MAX;
+  g_intr_piece = 0;
+  g_intruder = Intruder();
   // the caller's FILE* may be unbuffered or have a tiny buffer: chunking then reaches the library's loops
   vfs::set_stdio_buffering(pick({0, 0, 1, 16, 255, 256, 4096}, "stdio.buffering"));
   // a caller never clears errno for the library: it is whatever an earlier, unrelated call left behind
